@@ -580,6 +580,38 @@ func FamilyDefault(thorough bool) []*Conv {
 			}
 		}
 	}
+	// default (with and without default:update) on pointer methods whose pointee is not a struct
+	for i, np := range []struct{ name, t, zero string }{
+		{"int", "int", "0"}, {"strs", "[]string", "nil"}, {"map", "map[string]int", "nil"}, {"named", "PFXNum", "0"},
+	} {
+		for _, upd := range []bool{false, true} {
+			n++
+			u := &UpdateSpec{DefaultFn: "PFXNew", DefaultUpdate: upd}
+			lines := []string{"default PFXNew"}
+			if upd {
+				lines = append(lines, "default:update")
+			}
+			out = append(out, &Conv{
+				ID:      fmt.Sprintf("default/nonstruct_pointee_%s_upd%v", np.name, upd),
+				Family:  "default",
+				Format:  []string{"struct", "function", "variable"}[(n+i)%3],
+				Params:  "source *" + np.t,
+				Results: "*" + np.t,
+				Decls:   "type PFXNum int\n" + fmt.Sprintf("func PFXNew() *%s { v := %s(%s); return &v }\n", np.t, np.t, np.zero),
+				MethodLines: lines,
+				Spec:        &Spec{Update: u},
+				Bounds:      &Bounds{MaxSlice: 1, MaxMap: 1, RecDepth: 1},
+			})
+		}
+	}
+	// a default FUNC whose source parameter has the pointee type of a pointer source is a signature mismatch
+	out = append(out, &Conv{
+		ID: "default/fail_pointee_source_param", Family: "default", Format: "struct",
+		Params: "source *PFXIn", Results: "*PFXOut",
+		Decls:       "type PFXIn struct{ A int }\ntype PFXOut struct{ A int }\nfunc PFXNew(in PFXIn) *PFXOut { return &PFXOut{} }\n",
+		MethodLines: []string{"default PFXNew"},
+		Spec:        &Spec{}, ExpectFail: true, FailNote: "default FUNC takes the pointee type of the method's pointer source",
+	})
 	// *T -> U needs useZeroValueOnPointerInconsistency also when the method has a default constructor
 	for i, fc := range []struct{ name, params, res, decl string }{
 		{"struct", "source *PFXIn", "PFXOut", "type PFXIn struct{ A int }\ntype PFXOut struct{ A int }\nfunc PFXNew() PFXOut { return PFXOut{} }\n"},
